@@ -2,6 +2,7 @@ package main
 
 import (
 	"bufio"
+	"crypto/rsa"
 	"fmt"
 	"io"
 	"net"
@@ -414,34 +415,46 @@ func tail(s string, n int) string {
 
 // loginAndDownload performs the OpenID login against the fake IdP and returns the PAA token of the downloaded file.
 func loginAndDownload(c *http.Client, base string, idp *fakeIdP) string {
+	_, tok := loginWith(c, base, idp, map[string]interface{}{"preferred_username": "alice"}, nil)
+	return tok
+}
+
+// loginWith walks a browser through /connect → IdP → /callback → /connect at a real instance; the ID
+// token the IdP hands out carries the standard claims edited by `extra` and is signed by `key` (nil = the
+// IdP's own). Returns the status of the callback and the access token of the served file ("" = none served).
+func loginWith(c *http.Client, base string, idp *fakeIdP, extra map[string]interface{}, key *rsa.PrivateKey) (int, string) {
 	resp, err := c.Get(base + "/connect")
 	if err != nil {
-		return ""
+		return -1, ""
 	}
 	resp.Body.Close()
 	loc := resp.Header.Get("Location")
 	lu, err := url.Parse(loc)
 	if err != nil || lu.Query().Get("state") == "" {
-		return ""
+		return -1, ""
 	}
 	code := "c18-" + randHex(4)
 	at := "at-" + code
 	idp.setToken(at, "ok:alice")
 	idp.mu.Lock()
-	idp.codes[code] = codeResp{accessToken: at, idToken: idp.idToken(idp.stdClaims(map[string]interface{}{"preferred_username": "alice"}), nil)}
+	idp.codes[code] = codeResp{accessToken: at, idToken: idp.idToken(idp.stdClaims(extra), key)}
 	idp.mu.Unlock()
 	resp, err = c.Get(base + "/callback?state=" + lu.Query().Get("state") + "&code=" + code)
 	if err != nil {
-		return ""
+		return -1, ""
 	}
 	resp.Body.Close()
+	cb := resp.StatusCode
 	resp, err = c.Get(base + "/connect")
 	if err != nil {
-		return ""
+		return cb, ""
 	}
 	b, _ := io.ReadAll(resp.Body)
 	resp.Body.Close()
-	return rdpLines(string(b))["gatewayaccesstoken"]
+	if resp.StatusCode != 200 {
+		return cb, ""
+	}
+	return cb, rdpLines(string(b))["gatewayaccesstoken"]
 }
 
 // presentToken opens a websocket tunnel on an (openid-only) instance and presents the token.
